@@ -31,6 +31,14 @@ def SimFields (fns : List FnDef) (n : Nat) : Prop :=
       ∃ σ1, ExecC σ code t (.normal σ1) ∧ σ1 (.t k) = .recd (pre ++ fs) ∧ Agree env' σ1 ∧ Frame k σ σ1) ∧
     (∀ t v, evalInts fns n env es = ⟨t, .ret v⟩ → ExecC σ code t (.returned v))
 
+/-- the arguments of an enum constructor: every one materialised in a temporary -/
+def SimCtor (fns : List FnDef) (n : Nat) : Prop :=
+  ∀ (es : Exprs) (env : Env) (c : Nat) (code : Code) (xs : List Var) (c' : Nat) (σ : Store),
+    lowerCtorArgs es c = some (code, xs, c') → Agree env σ →
+    (∀ t env' fs, evalInts fns n env es = ⟨t, .ok (env', fs)⟩ →
+      ∃ σ1, ExecC σ code t (.normal σ1) ∧ xs.map σ1 = fs.map Val.int ∧ Agree env' σ1 ∧ Frame c σ σ1) ∧
+    (∀ t v, evalInts fns n env es = ⟨t, .ret v⟩ → ExecC σ code t (.returned v))
+
 /-- a guard chain against the arms it was built from -/
 def SimChain (fns : List FnDef) (n : Nat) : Prop :=
   ∀ (arms : Arms) (env : Env) (sel : Sel) (ke tb idx c : Nat) (steps : List GStep) (c' : Nat) (σ : Store) (v : Val)
@@ -107,7 +115,7 @@ theorem SimE.ret {fns n} (hE : SimE fns n) {e env c code value c1 σ t v}
 theorem R.ok_eq {α} (a : α) : (R.ok a : R α) = ⟨[], .ok a⟩ := rfl
 
 theorem simE_step {fns n} (hE : SimE fns n) (hA : SimArgs fns n) (hF : SimFields fns n) (hB : SimBlock fns n)
-    (hW : SimWhile fns n) (hC : SimChain fns n) :
+    (hW : SimWhile fns n) (hC : SimChain fns n) (hK : SimCtor fns n) :
     SimE fns (n + 1) := by
   intro e env c code value c' σ hl ha
   cases e with
@@ -874,7 +882,39 @@ theorem simE_step {fns n} (hE : SimE fns n) (hA : SimArgs fns n) (hF : SimFields
             simpa [List.append_assoc] using this
         · simp [hok, R.stuck] at h2'
   | «for» x l b => simp [lowerE] at hl
-  | ctor k args => simp [lowerE] at hl
+  | ctor k args =>
+    simp [lowerE, Option.bind_eq_some_iff] at hl
+    obtain ⟨ca, xs, c1, h1, rfl, rfl, rfl⟩ := hl
+    have ⟨m1, hxs⟩ := lowerCtorArgs_mono args c ca xs c1 h1
+    have hne : ∀ x ∈ xs, x ≠ Var.t c1 := by
+      intro x hx; obtain ⟨j, rfl, hj⟩ := hxs x hx; intro h; cases h; omega
+    constructor
+    · intro t env' w h
+      simp only [evalExpr, bind_eq, bind_ok_iff] at h
+      obtain ⟨t1, ⟨env1, fs⟩, t2, hargs, h2', rfl⟩ := h
+      simp [pure_eq, R.ok] at h2'
+      obtain ⟨rfl, rfl, rfl⟩ := h2'
+      obtain ⟨σ1, hx1, hmap, ha1, hf1⟩ := (hK args env c ca xs c1 σ h1 ha).1 t1 env1 fs hargs
+      have s1 : ExecS σ1 (.setDisc (.t c1) (.enm k (List.replicate xs.length 0))) []
+          (.normal (σ1.set (.t c1) (.enm k (List.replicate xs.length 0)))) := .setDisc
+      have hmap' : xs.map (σ1.set (.t c1) (.enm k (List.replicate xs.length 0))) = fs.map Val.int := by
+        rw [← hmap]; exact List.map_congr_left (fun y hy => set_other _ _ (hne y hy))
+      obtain ⟨σ2, hx2, hv2, hk2⟩ := exec_storeFields (k := k) (to := .t c1) xs fs [] _ (by simp) hne hmap'
+      refine ⟨σ2, t1, [], ?_, by simp [evalValue, hv2], by simp, ?_, ?_⟩
+      · have := ExecC.append hx1 (ExecC.cons s1 hx2)
+        simpa [List.append_assoc] using this
+      · intro x v hx
+        rw [hk2 (.x x) (by intro h; cases h), set_other _ _ (by intro h; cases h)]
+        exact ha1 x v hx
+      · intro j hj
+        rw [hk2 (.t j) (by intro h; cases h; omega), set_other _ _ (by intro h; cases h; omega)]
+        exact hf1 j hj
+    · intro t w h
+      simp only [evalExpr, bind_eq, bind_ret_iff] at h
+      rcases h with h | ⟨t1, ⟨env1, fs⟩, t2, hargs, h2', rfl⟩
+      · have := (hK args env c ca xs c1 σ h1 ha).2 t w h
+        simpa [List.append_assoc] using ExecC.append_ret _ this
+      · simp [pure_eq, R.ok] at h2'
   | record fs =>
     simp [lowerE, Option.bind_eq_some_iff] at hl
     obtain ⟨cf, c1, h1, rfl, rfl, rfl⟩ := hl
@@ -1217,6 +1257,56 @@ theorem simChain_step {fns n} (hE : SimE fns n) (hB : SimBlock fns n) (hC : SimC
         rcases IH.2 t w h with hg | ⟨a, σ1, t1, code, t2, hg, hcode, hx, ht⟩
         · exact Or.inl hg
         · exact Or.inr ⟨a + 1, σ1, t1, code, t2, by simpa [Nat.add_assoc, Nat.add_comm 1 a] using hg, by simpa using hcode, hx, ht⟩
+theorem simCtor_step {fns n} (hE : SimE fns n) (hK : SimCtor fns n) : SimCtor fns (n + 1) := by
+  intro es env c code xs c' σ hl ha
+  cases es with
+  | nil =>
+    simp [lowerCtorArgs] at hl; obtain ⟨rfl, rfl, rfl⟩ := hl
+    constructor
+    · intro t env' fs h
+      simp [evalInts, R.ok] at h
+      obtain ⟨rfl, rfl, rfl⟩ := h
+      exact ⟨σ, .nil, rfl, ha, Frame.refl _ _⟩
+    · intro t v h; simp [evalInts, R.ok] at h
+  | cons e es =>
+    simp [lowerCtorArgs, Option.bind_eq_some_iff] at hl
+    obtain ⟨ce, ve, c1, h1, cs, xs', c2, h2, rfl, rfl, rfl⟩ := hl
+    have ⟨m1, b1⟩ := lowerE_mono e c ce ve c1 h1
+    have ⟨a1, k1, hk1, hk1'⟩ := atv_spec ve c1 b1
+    constructor
+    · intro t env' fs h
+      simp only [evalInts, bind_eq, bind_ok_iff] at h
+      obtain ⟨t1, ⟨env1, v⟩, t2, hel, h2', rfl⟩ := h
+      obtain ⟨σ1, hx1, hv1, ha1, hf1⟩ := hE.mat h1 ha hel
+      cases v with
+      | int nv =>
+        simp only [bind_eq, bind_ok_iff] at h2'
+        obtain ⟨t3, ⟨env2, fs'⟩, t4, hes, h4, rfl⟩ := h2'
+        simp [pure_eq, R.ok] at h4
+        obtain ⟨rfl, rfl, rfl⟩ := h4
+        obtain ⟨σ2, hx2, hmap, ha2, hf2⟩ := (hK es env1 _ cs xs' c2 σ1 h2 ha1).1 t3 env2 fs' hes
+        refine ⟨σ2, ?_, ?_, ha2, hf1.trans (hf2.mono (c := c) (by omega)) (Nat.le_refl _)⟩
+        · have := ExecC.append hx1 hx2
+          simpa [List.append_assoc] using this
+        · simp only [List.map_cons, hmap, List.cons.injEq, and_true]
+          rw [hk1, hf2 k1 hk1', ← hk1, hv1]
+      | _ => simp [R.stuck] at h2'
+    · intro t w h
+      simp only [evalInts, bind_eq, bind_ret_iff] at h
+      rcases h with h | ⟨t1, ⟨env1, v⟩, t2, hel, h2', rfl⟩
+      · have := hE.ret h1 ha h
+        simpa [List.append_assoc] using ExecC.append_ret _ this
+      · obtain ⟨σ1, hx1, hv1, ha1, hf1⟩ := hE.mat h1 ha hel
+        cases v with
+        | int nv =>
+          simp only [bind_eq, bind_ret_iff] at h2'
+          rcases h2' with h | ⟨t3, ⟨env2, fs'⟩, t4, hes, h4, rfl⟩
+          · have := (hK es env1 _ cs xs' c2 σ1 h2 ha1).2 t2 w h
+            have := ExecC.append hx1 this
+            simpa [List.append_assoc] using this
+          · simp [pure_eq, R.ok] at h4
+        | _ => simp [R.stuck] at h2'
+
 theorem simSeq_step {fns n} (hE : SimE fns n) (hS : SimSeq fns n) : SimSeq fns (n + 1) := by
   intro b env c code x c' σ hl ha
   cases b with
@@ -1353,8 +1443,9 @@ theorem simWhile_step {fns n} (hE : SimE fns n) (hB : SimBlock fns n) (hW : SimW
 
 theorem sim_all (fns : List FnDef) :
     ∀ n, SimE fns n ∧ SimArgs fns n ∧ SimSeq fns n ∧ SimBlock fns n ∧ SimWhile fns n ∧ SimFields fns n ∧ SimChain fns n
+      ∧ SimCtor fns n
   | 0 => by
-    refine ⟨?_, ?_, ?_, ?_, ?_, ?_, ?_⟩
+    refine ⟨?_, ?_, ?_, ?_, ?_, ?_, ?_, ?_⟩
     · intro e env c code value c' σ _ _
       exact ⟨fun t env' v h => by simp [evalExpr, R.fuel] at h, fun t v h => by simp [evalExpr, R.fuel] at h⟩
     · intro es env c code tmps c' σ _ _
@@ -1369,10 +1460,12 @@ theorem sim_all (fns : List FnDef) :
       exact ⟨fun t env' v h => by simp [evalInts, R.fuel] at h, fun t v h => by simp [evalInts, R.fuel] at h⟩
     · intro arms env sel ke tb idx c steps c' σ v ko cA codes cA' c0 _ _ _ _ _ _ _ _ _ _ _
       exact ⟨fun t env' r h => by simp [evalArms, R.fuel] at h, fun t w h => by simp [evalArms, R.fuel] at h⟩
+    · intro es env c code xs c' σ _ _
+      exact ⟨fun t env' v h => by simp [evalInts, R.fuel] at h, fun t v h => by simp [evalInts, R.fuel] at h⟩
   | n + 1 => by
-    obtain ⟨hE, hA, hS, hB, hW, hF, hC⟩ := sim_all fns n
-    exact ⟨simE_step hE hA hF hB hW hC, simArgs_step hE hA, simSeq_step hE hS, simBlock_step hS, simWhile_step hE hB hW,
-      simFields_step hE hF, simChain_step hE hB hC⟩
+    obtain ⟨hE, hA, hS, hB, hW, hF, hC, hK⟩ := sim_all fns n
+    exact ⟨simE_step hE hA hF hB hW hC hK, simArgs_step hE hA, simSeq_step hE hS, simBlock_step hS, simWhile_step hE hB hW,
+      simFields_step hE hF, simChain_step hE hB hC, simCtor_step hE hK⟩
 
 
 /-! ### the structured MIR is deterministic -/
